@@ -87,6 +87,8 @@ pub enum Ty {
   CollRef(Box<Ty>),
   Comp(Vec<(String, Ty)>),
   CollComp(Vec<(String, Ty)>),
+  /// typeRef `Any`: no constraint (used for a component next to a constrained one)
+  Any,
 }
 
 impl Ty {
@@ -99,10 +101,12 @@ impl Ty {
       Ty::CollRef(x) => format!("collection-of-ref({})", x.shape()),
       Ty::Comp(cs) => format!("component({})", cs[0].1.shape()),
       Ty::CollComp(cs) => format!("collection-of-component({})", cs[0].1.shape()),
+      Ty::Any => "any".into(),
     }
   }
   fn base(&self) -> Base {
     match self {
+      Ty::Any => Base::Number,
       Ty::Builtin(b) | Ty::Simple(b, _) | Ty::CollSimple(b, _) => *b,
       Ty::Ref(x, _) | Ty::CollRef(x) => x.base(),
       Ty::Comp(cs) | Ty::CollComp(cs) => cs[0].1.base(),
@@ -118,7 +122,7 @@ impl Ty {
   }
   fn depth(&self) -> usize {
     match self {
-      Ty::Builtin(_) | Ty::Simple(..) => 1,
+      Ty::Builtin(_) | Ty::Simple(..) | Ty::Any => 1,
       Ty::CollSimple(..) => 2,
       Ty::Ref(x, _) | Ty::CollRef(x) => 1 + x.depth(),
       Ty::Comp(cs) | Ty::CollComp(cs) => 1 + cs.iter().map(|c| c.1.depth()).max().unwrap_or(0),
@@ -152,7 +156,13 @@ impl Val {
 
 /// What reaches the logic for an input value; None = left open (null items, missing / extra entries)
 fn norm(ty: &Ty, v: &Val) -> Option<Val> {
+  norm_mode(ty, v, false)
+}
+
+/// `any_as_null`: the recorded deviation - a component whose typeRef is `Any` reaches the logic as null
+fn norm_mode(ty: &Ty, v: &Val, any_as_null: bool) -> Option<Val> {
   match ty {
+    Ty::Any => Some(if any_as_null { Val::Null } else { v.clone() }),
     Ty::Builtin(b) => Some(match v {
       Val::Atom(k, _) if k == b => v.clone(),
       _ => Val::Null,
@@ -162,7 +172,7 @@ fn norm(ty: &Ty, v: &Val) -> Option<Val> {
       _ => Val::Null,
     }),
     Ty::Ref(x, allowed) => {
-      let r = norm(x, v)?;
+      let r = norm_mode(x, v, any_as_null)?;
       if *allowed {
         match &r {
           Val::Atom(_, inside) if !*inside => Some(Val::Null),
@@ -172,14 +182,14 @@ fn norm(ty: &Ty, v: &Val) -> Option<Val> {
         Some(r)
       }
     }
-    Ty::CollSimple(b, allowed) => norm_list(&Ty::Simple(*b, *allowed), v),
-    Ty::CollRef(x) => norm_list(x, v),
-    Ty::Comp(cs) => norm_ctx(cs, v),
-    Ty::CollComp(cs) => norm_list(&Ty::Comp(cs.clone()), v),
+    Ty::CollSimple(b, allowed) => norm_list(&Ty::Simple(*b, *allowed), v, any_as_null),
+    Ty::CollRef(x) => norm_list(x, v, any_as_null),
+    Ty::Comp(cs) => norm_ctx(cs, v, any_as_null),
+    Ty::CollComp(cs) => norm_list(&Ty::Comp(cs.clone()), v, any_as_null),
   }
 }
 
-fn norm_list(item: &Ty, v: &Val) -> Option<Val> {
+fn norm_list(item: &Ty, v: &Val, any_as_null: bool) -> Option<Val> {
   match v {
     Val::List(items) => {
       let mut out = vec![];
@@ -187,7 +197,7 @@ fn norm_list(item: &Ty, v: &Val) -> Option<Val> {
         if *it == Val::Null {
           return None;
         }
-        let n = norm(item, it)?;
+        let n = norm_mode(item, it, any_as_null)?;
         if n == Val::Null {
           // a non-conforming item: the list does not conform
           return Some(Val::Null);
@@ -200,7 +210,7 @@ fn norm_list(item: &Ty, v: &Val) -> Option<Val> {
   }
 }
 
-fn norm_ctx(cs: &[(String, Ty)], v: &Val) -> Option<Val> {
+fn norm_ctx(cs: &[(String, Ty)], v: &Val, any_as_null: bool) -> Option<Val> {
   match v {
     Val::Ctx(es) => {
       if es.len() != cs.len() || !cs.iter().all(|(n, _)| es.iter().any(|(k, _)| k == n)) {
@@ -209,7 +219,7 @@ fn norm_ctx(cs: &[(String, Ty)], v: &Val) -> Option<Val> {
       let mut out = vec![];
       for (n, t) in cs {
         let val = &es.iter().find(|(k, _)| k == n).unwrap().1;
-        out.push((n.clone(), norm(t, val)?));
+        out.push((n.clone(), norm_mode(t, val, any_as_null)?));
       }
       Some(Val::Ctx(out))
     }
@@ -223,6 +233,7 @@ fn conforms(ty: &Ty, v: &Val) -> Option<bool> {
     return Some(true);
   }
   match ty {
+    Ty::Any => Some(true),
     Ty::Builtin(b) => Some(matches!(v, Val::Atom(k, _) if k == b)),
     Ty::Simple(b, allowed) => match v {
       Val::Atom(k, inside) if k == b => {
@@ -326,6 +337,7 @@ fn coerce(ty: &Ty, v: &Val) -> Option<Val> {
 /// a conforming value
 fn ok(ty: &Ty) -> Val {
   match ty {
+    Ty::Any => Val::Atom(Base::String, true),
     Ty::Builtin(b) | Ty::Simple(b, _) => Val::Atom(*b, true),
     Ty::Ref(x, _) => ok(x),
     Ty::CollSimple(b, _) => Val::List(vec![Val::Atom(*b, true)]),
@@ -349,6 +361,12 @@ fn atoms_all() -> Vec<(String, Val)> {
 /// labelled values placing every atom at every position of the tree
 fn vals(ty: &Ty) -> Vec<(String, Val)> {
   match ty {
+    Ty::Any => {
+      let mut out = atoms_all();
+      out.push(("list".into(), Val::List(vec![Val::Atom(Base::Number, true), Val::Atom(Base::String, true)])));
+      out.push(("context".into(), Val::Ctx(vec![("z".into(), Val::Atom(Base::Number, true))])));
+      out
+    }
     Ty::Builtin(b) | Ty::Simple(b, _) => {
       let mut out = atoms_all();
       out.push(("list-of-conforming".into(), Val::List(vec![Val::Atom(*b, true)])));
@@ -433,6 +451,7 @@ impl Emit {
       components: vec![],
     };
     match ty {
+      Ty::Any => d.type_ref = Some("Any".into()),
       Ty::Builtin(b) => d.type_ref = Some(b.type_ref().into()),
       Ty::Simple(b, a) => {
         d.type_ref = Some(b.type_ref().into());
@@ -487,6 +506,8 @@ fn wraps(x: &Ty) -> Vec<Ty> {
   out.push(Ty::CollRef(Box::new(x.clone())));
   out.push(Ty::Comp(vec![("a".into(), x.clone()), ("b".into(), plain_number.clone())]));
   out.push(Ty::CollComp(vec![("a".into(), x.clone()), ("b".into(), plain_number)]));
+  // an unconstrained component next to the constrained one
+  out.push(Ty::Comp(vec![("a".into(), x.clone()), ("b".into(), Ty::Any)]));
   // one definition referred to twice from the same tree: by two components, and by a component and a collection
   out.push(Ty::Comp(vec![("a".into(), Ty::Ref(Box::new(x.clone()), false)), ("b".into(), Ty::Ref(Box::new(x.clone()), false))]));
   out.push(Ty::Comp(vec![("a".into(), Ty::Ref(Box::new(x.clone()), false)), ("b".into(), Ty::CollRef(Box::new(x.clone())))]));
@@ -617,7 +638,7 @@ fn check_type(run: &Run, cnt: &Cnt, ty: &Ty) {
   };
   let base = ty.base().type_ref();
   let local_outcomes = std::cell::RefCell::new(std::collections::BTreeSet::<String>::new());
-  let judge = |side: &str, invocable: &str, label: &str, ctx_text: &str, ctx: &FeelContext, expected: Option<Val>, value_text: &str| {
+  let judge = |side: &str, invocable: &str, label: &str, ctx_text: &str, ctx: &FeelContext, expected: Option<Val>, value_text: &str, deviation: Option<(Val, &str)>| {
     let got = show_value_full(&me.evaluate_invocable(invocable, ctx));
     cnt.evals.fetch_add(1, Ordering::Relaxed);
     let expected = match expected {
@@ -654,6 +675,12 @@ fn check_type(run: &Run, cnt: &Cnt, ty: &Ty) {
       cnt.nontrivial.fetch_add(1, Ordering::Relaxed);
     }
     if got != exp {
+      if let Some((dv, dkey)) = &deviation {
+        if eval_text(&dv.text()).map(|v| show_value_full(&v)) == Some(got.clone()) {
+          run.violation(dkey, &format!("{} typed {} (base {}): value {} gives {} but {} is prescribed", side, ty.shape(), base, value_text, got, exp), json!({"engine":"dmn","xml":xml,"invocable":invocable,"ctx":ctx_text,"expected":exp}));
+          return;
+        }
+      }
       let got_class = if got == "null" { "null-instead-of-value" } else if exp == "null" { "value-instead-of-null" } else { "other-value" };
       // the label names the kind of the offending atom: replace the type's own base by `own` so that keys do not multiply by base
       let label_abs = label.replace(base, "own-kind");
@@ -674,15 +701,16 @@ fn check_type(run: &Run, cnt: &Cnt, ty: &Ty) {
         continue;
       }
     };
-    judge("input", "Echo", label, &text, &ctx, norm(ty, v), &v.text());
+    let deviation = norm_mode(ty, v, true).map(|d| (d, "input:component-typed-Any-reaches-the-logic-as-null"));
+    judge("input", "Echo", label, &text, &ctx, norm(ty, v), &v.text(), deviation);
   }
   // output side
   let empty = FeelContext::default();
   for (k, (label, v)) in out_vals.iter().enumerate() {
     let expected = coerce(ty, v);
-    judge("decision-output", &format!("O{}", k), label, "{}", &empty, expected.clone(), &v.text());
-    judge("knowledge-model-output", &format!("B{}", k), label, "{}", &empty, expected.clone(), &v.text());
-    judge("decision-service-output", &format!("S{}", k), label, "{}", &empty, expected, &v.text());
+    judge("decision-output", &format!("O{}", k), label, "{}", &empty, expected.clone(), &v.text(), None);
+    judge("knowledge-model-output", &format!("B{}", k), label, "{}", &empty, expected.clone(), &v.text(), None);
+    judge("decision-service-output", &format!("S{}", k), label, "{}", &empty, expected, &v.text(), None);
   }
   run.outcomes_bulk(local_outcomes.into_inner());
 }
